@@ -107,6 +107,27 @@ struct Patch {
     attrs: Option<BTreeMap<String, u64>>,
     body: Option<Vec<String>>,
     emb: Option<Option<[u8; 4]>>,
+    /// != 0: the patch additionally carries a value that one index stage (or the schema) must reject; see `bad_field`
+    bad: u8,
+}
+
+/// A value the write path must reject, and the stage that rejects it.  1..=4: the HNSW index (wrong dimension below / above,
+/// NaN, infinity) - the LAST index stage, so the rollback closure runs with every B-tree / BM25 / HNSW change applied;
+/// 6: the schema (wrong type), before any index is touched.  (The B-tree stage is reached by the duplicate-uid writes.  The
+/// BM25 stage cannot reject through the public API: index::BM25::insert accepts a text without tokens by design and
+/// AlreadyExists is unreachable for a sequential caller.)
+fn bad_field(kind: u8) -> (&'static str, Fv) {
+    let v = |xs: &[f32]| Fv::Vector(xs.iter().map(|x| bf16::from_f32(*x)).collect());
+    match kind {
+        1 => ("emb", v(&[1.0, 2.0, 3.0])),
+        2 => ("emb", v(&[1.0, 2.0, 3.0, 4.0, 5.0])),
+        3 => ("emb", v(&[1.0, f32::NAN, 3.0, 4.0])),
+        4 => ("emb", v(&[1.0, 2.0, f32::INFINITY, 4.0])),
+        _ => ("age", Fv::Text("old".into())),
+    }
+}
+fn bad_applicable(kind: u8, ixs: &IxSet) -> bool {
+    match kind { 1..=4 => ixs[9], _ => true }
 }
 
 fn emb_fv(e: &[u8; 4]) -> Fv {
@@ -169,6 +190,7 @@ fn patch_fields(p: &Patch) -> BTreeMap<String, Fv> {
     if let Some(v) = &p.attrs { m.insert("attrs".into(), Fv::Map(v.iter().map(|(k, x)| (FieldKey::from(k.clone()), Fv::U64(*x))).collect())); }
     if let Some(v) = &p.body { m.insert("body".into(), Fv::Text(v.join(" "))); }
     if let Some(v) = &p.emb { m.insert("emb".into(), v.as_ref().map(emb_fv).unwrap_or(Fv::Null)); }
+    if p.bad != 0 { let (k, fv) = bad_field(p.bad); m.insert(k.into(), fv); }
     m
 }
 
@@ -279,6 +301,8 @@ fn ixs_term(ixs: &IxSet) -> Value {
 #[derive(Clone, Debug)]
 enum Op {
     Add(DocVals),
+    /// an add carrying a value an index stage must reject (see `bad_field`)
+    AddBad(DocVals, u8),
     Update(u64, Patch),
     UpdateMissing(Patch),
     Remove(u64),
@@ -293,7 +317,7 @@ enum Op {
 impl Op {
     fn kind(&self) -> &'static str {
         match self {
-            Op::Add(_) => "add", Op::Update(..) => "update", Op::UpdateMissing(_) => "update_missing",
+            Op::Add(_) | Op::AddBad(..) => "add", Op::Update(..) => "update", Op::UpdateMissing(_) => "update_missing",
             Op::Remove(_) | Op::RemoveLast => "remove", Op::RemoveMissing => "remove_missing", Op::Flush => "flush",
             Op::SaveExt(_) => "save_extension", Op::CompactB(_) => "compact_btree", Op::CompactT(_) => "compact_bm25",
             Op::Reopen(_, false) => "reopen_collection", Op::Reopen(_, true) => "reopen_database",
@@ -408,7 +432,27 @@ impl Gen {
                     d.uid = format!("u{}", 1 + self.rng.below(self.uid_ctr.max(1)));
                     Op::Add(d)
                 }
-                25..=49 => { let dup = cfg[0] && self.rng.chance(1, 2); let s = self.rng.next(); Op::Update(s, self.patch(dup)) }
+                25..=42 => { let dup = cfg[0] && self.rng.chance(1, 2); let s = self.rng.next(); Op::Update(s, self.patch(dup)) }
+                43..=49 => {
+                    // a write that one index stage must reject, on documents that carry values in every index kind:
+                    // nothing of it may remain in ANY index (the rollback closures), now and after flush + reopen
+                    let mut kinds: Vec<u8> = vec![6];
+                    if cfg[9] { kinds.extend([1, 2, 3, 4, 1, 3]); }
+                    let kind = *self.rng.pick(&kinds);
+                    let op = if kind != 6 && self.rng.chance(1, 3) { Op::AddBad(self.doc(), kind) } else {
+                        let s = self.rng.next();
+                        let mut p = self.patch(false);
+                        // touch every index kind so that the rollback has something of each to restore
+                        if self.rng.chance(2, 3) { p.body = Some(self.words()); p.tags = Some(self.tags()); p.age = Some(self.rng.below(6)); p.emb = Some(self.emb()); }
+                        p.bad = kind;
+                        Op::Update(s, p)
+                    };
+                    if self.rng.chance(1, 3) {
+                        ops.push(op);
+                        ops.push(Op::Flush);
+                        if with_reopen { Op::Reopen(cfg, self.rng.chance(1, 3)) } else { Op::Flush }
+                    } else { op }
+                }
                 50..=51 => Op::UpdateMissing(self.patch(false)),
                 52..=63 => Op::Remove(self.rng.next()),
                 64 => Op::RemoveMissing,
@@ -607,13 +651,27 @@ async fn exec_op(env: &Env, sess: &mut Option<Session>, op: &Op, p: &mut Progres
                 Err(e) => fail(p, Some(Inflight { id: next, before: None, after: Some(d.clone()), what: "add".into() }), e),
             }
         }
+        Op::AddBad(d, kind) => {
+            if !bad_applicable(*kind, &p.ixs) { return Exec::Done; }
+            p.see(d);
+            let next = coll.max_document_id() + 1;
+            let mut doc = to_document(&coll, d);
+            let (k, fv) = bad_field(*kind);
+            if doc.set_field(k, fv).is_err() { p.rejected += 1; return Exec::Rejected("set_field".into()); }
+            match coll.add(doc).await {
+                Ok(id) => Exec::Failed(format!("an add carrying an invalid value (kind {kind}) was accepted as id {id}")),
+                Err(e) => fail(p, Some(Inflight { id: next, before: None, after: None, what: "add".into() }), e),
+            }
+        }
         Op::Update(sel, patch) => {
             if live.is_empty() { return Exec::Done; }
+            if patch.bad != 0 && !bad_applicable(patch.bad, &p.ixs) { return Exec::Done; }
             let id = live[(*sel % live.len() as u64) as usize];
             let before = p.cur[&id].clone();
             let after = before.apply(patch);
             p.see(&after);
             match coll.update(id, patch_fields(patch)).await {
+                Ok(_) if patch.bad != 0 => Exec::Failed(format!("an update of {id} carrying an invalid value (kind {}) was accepted", patch.bad)),
                 Ok(_) => { p.cur.insert(id, after); Exec::Done }
                 Err(e) => fail(p, Some(Inflight { id, before: Some(before), after: Some(after), what: "update".into() }), e),
             }
